@@ -12,5 +12,5 @@ ASSUMPTIONS = [
 
 def main(tier, replay=None):
     if replay:
-        return inst_check.replay("C03", replay, 8)
+        return c03_gen.replay(replay)
     return c03_gen.run(tier, ASSUMPTIONS)
